@@ -9,6 +9,7 @@
 
     Only statements, each closed by [exact]; proofs live in Proofs.v / Access.v. *)
 From LMD Require Import C14.Model C14.Proofs C14.Rows C14.Access.
+From LMD Require Import QE.SchemaTypes Gen.Schema C14.Locks Gen.Locks C14.GenLocksProofs C14.Lists.
 From Coq Require Import Relations.
 
 (** reader_sees_batch_boundary: whatever a thread serialised ([out]: lock scope k, data set d, table t,
@@ -107,6 +108,63 @@ Theorem C14_lockset_refuted :
   violations table = [FRowCells; FTimeperiodRows; FStoreData; FStoreIndex; FDupStringList; FPeerMap; FConnectionPool].
 Proof. exact lockset_refuted_pinned. Qed.
 
+(** ** the generated lock coverage matrix (Gen/Locks.v: every table x column of the code's schema x position
+    of the column in a request; printed by `lmdverif gen` from the real getAffectedTables, the column
+    metadata and a perturbation measurement on a real Daemon; see C14/Locks.v) *)
+
+(** lock_matrix_reads_locked: whatever stored table the value of a column reads, a request that uses the
+    column (in Columns, Filter, Sort, Stats, Stats sum or as group key) holds that table's read lock - the
+    hypothesis "reads only tables it locked" of the reader role, for the real code, column by column *)
+Theorem C14_lock_matrix_reads_locked :
+  forall t e u lk r,
+    In t lock_matrix -> In e (lt_cols t) -> In (u, Some lk) (l_locks e) -> In r (l_reads e) ->
+    In r lk /\ ~ In r lk_virtual /\ In r lk_stored.
+Proof. exact lock_matrix_reads_locked. Qed.
+
+(** ... and takes its locks in strictly increasing table id order (hypothesis of lock_order_acyclic) *)
+Theorem C14_lock_matrix_increasing :
+  forall t e u lk,
+    In t lock_matrix -> In e (lt_cols t) -> In (u, Some lk) (l_locks e) ->
+    increasing (held lk_virtual lk) = true.
+Proof. exact lock_matrix_increasing. Qed.
+
+(** ... so the reader role instantiated with the code's locks and any cells of the tables the column reads
+    passes the static discipline check of the protocol model *)
+Theorem C14_lock_matrix_readers_safe :
+  forall t e u lk cells,
+    In t lock_matrix -> In e (lt_cols t) -> In (u, Some lk) (l_locks e) ->
+    (forall tc, In tc cells -> In (fst tc) (l_reads e)) ->
+    safe [] None None false false (reader_prog (held lk_virtual lk) cells) = true.
+Proof. exact lock_matrix_readers_safe. Qed.
+
+(** the matrix covers the generated schema: every table answered from the cache x every column has an entry
+    whose column can be requested; the matrix' notion of "virtual table" is the schema's; only calculated
+    columns may lack a measurement (volatile) *)
+Theorem C14_lock_matrix_covers_schema :
+  forall t c,
+    In t schema -> t_passthrough t = false -> In c (t_cols t) ->
+    exists lt e lk, In lt lock_matrix /\ lt_name lt = t_name t /\ In e (lt_cols lt) /\ l_col e = c_name c /\
+                    In (LCol, Some lk) (l_locks e) /\
+                    t_virtual t = memn (lt_id lt) lk_virtual /\
+                    (l_volatile e = true -> c_store c = SVirtual).
+Proof. exact lock_matrix_covers_schema. Qed.
+
+(** ** comment / downtime lists of hosts and services against the backend (what stream `c14race` evaluates
+    on every observed list, C14/Lists.v): a list that passes [list_ok] against the backend versions of the
+    window holds every entry that was attached the whole time and only entries that were attached at some
+    time; against a backend whose comments and downtimes never change it is exactly the backend's list *)
+Theorem C14_lists_complete_in_window :
+  forall (served : list Z) (vs : list (list Z)),
+    vs <> [] -> list_ok (served, must_of vs, may_of vs) = true ->
+    (forall x, (forall v, In v vs -> In x v) -> In x served) /\
+    (forall x, In x served -> exists v, In v vs /\ In x v).
+Proof. exact list_ok_window. Qed.
+
+Theorem C14_lists_exact_when_static :
+  forall (served v : list Z),
+    list_ok (served, must_of [v], may_of [v]) = true -> forall x, In x served <-> In x v.
+Proof. exact list_ok_static. Qed.
+
 (** ** non-vacuity *)
 
 Example C14_example :
@@ -128,6 +186,23 @@ Example C14_example :
     = [[(1, 0, 3, 1, 0); (1, 0, 3, 0, 7)]; []].
 Proof. vm_compute. repeat split. Qed.
 
+(** the checks of the matrix are not vacuous: a request that locks tables 3 and 4 for a column reading 3 and 14
+    is reported, as is a lock list in request order; the generated matrix has entries reading three stored tables
+    (a reference column whose target is calculated from a third table) and entries of virtual tables *)
+Example C14_lock_matrix_example :
+  uncovered [17] [mkLT (s "x") 4 [mkL (s "c") [(LCol, Some [3; 4; 17]); (LFilter, None)] [3] [14] false]]
+    = [(s "x", s "c", LCol, [14])] /\
+  matrix_ok [17] [3; 4; 14] [mkLT (s "x") 4 [mkL (s "c") [(LCol, Some [3; 4; 17])] [3] [14] false]] = false /\
+  matrix_ok [17] [3; 4; 14] [mkLT (s "x") 4 [mkL (s "c") [(LCol, Some [4; 3; 14])] [3] [14] false]] = false /\
+  matrix_ok [17] [3; 4; 14] [mkLT (s "x") 4 [mkL (s "c") [(LCol, Some [3; 4; 14; 17])] [3] [14] false]] = true /\
+  existsb (fun t => existsb (fun e => Nat.leb 3 (length (nodup Nat.eq_dec (l_reads e)))) (lt_cols t)) lock_matrix = true /\
+  existsb (fun t => memn (lt_id t) lk_virtual) lock_matrix = true /\
+  (* lists: the empty list of a data set published before its lists were rebuilt, a list with a foreign entry *)
+  list_ok ([], must_of [[1; 4]; [1; 4; 1000]], may_of [[1; 4]; [1; 4; 1000]])%Z = false /\
+  list_ok ([1; 4; 7], must_of [[1; 4]], may_of [[1; 4]])%Z = false /\
+  list_ok ([4; 1], must_of [[1; 4]; [1; 4; 1000]], may_of [[1; 4]; [1; 4; 1000]])%Z = true.
+Proof. vm_compute. repeat split. Qed.
+
 Print Assumptions C14_reader_sees_batch_boundary.
 Print Assumptions C14_read_lock_freezes_store.
 Print Assumptions C14_reader_sees_whole_rows.
@@ -137,3 +212,9 @@ Print Assumptions C14_rebuild_invisible_until_swap.
 Print Assumptions C14_roles_pass_check.
 Print Assumptions C14_lockset_discipline.
 Print Assumptions C14_lockset_refuted.
+Print Assumptions C14_lock_matrix_reads_locked.
+Print Assumptions C14_lock_matrix_increasing.
+Print Assumptions C14_lock_matrix_readers_safe.
+Print Assumptions C14_lock_matrix_covers_schema.
+Print Assumptions C14_lists_complete_in_window.
+Print Assumptions C14_lists_exact_when_static.
